@@ -29,6 +29,12 @@ CONFIGS = {
     "eol2": ("cl0", ["MON_VARIANT=1", "MON_EOL=2"]),
     "eol4": ("cl0", ["MON_VARIANT=1", "MON_EOL=4"]),
     "gasan1": ("gasan0", ["MON_VARIANT=1"]),
+    # parse_tree::parse with the monitor control underneath; MON_SELV picks the selector table
+    "tree0": ("asan0", ["MON_TREE", "MON_VARIANT=0", "MON_SELV=0"]),        # all rules selected, no actions
+    "tree1": ("cl0", ["MON_TREE", "MON_VARIANT=1", "MON_SELV=1"]),          # random subset, void actions
+    "tree2": ("cl0", ["MON_TREE", "MON_VARIANT=3", "MON_SELV=2"]),          # subset + transformers, vetoing actions
+    "tree3": ("cl0", ["MON_TREE", "MON_VARIANT=4", "MON_SELV=3"]),          # sparse / chain-directed selection, throwing actions
+    "treelazy": ("cl0", ["MON_TREE", "MON_VARIANT=0", "MON_SELV=0", "MON_LAZY=1"]),
 }
 
 # standard corpus sizes: profile -> (quick count, thorough count)
@@ -38,6 +44,8 @@ SIZES = {
     "conv": (100, 1200),
     "exc": (80, 800),
     "act": (80, 800),
+    "tree": (60, 600),
+    "chain": (0, 0),
 }
 
 _tu_cache = {}
